@@ -323,7 +323,7 @@ def run_impl(case):
     alls = canon(run_stream(res, pre + [step_all]))
     if case.get('dup'):
         pre = [DF.duplicate(source=names[0], target_name=names[-1], target_path=names[-1] + '.csv', duplicate_to_end=True)]
-    out = canon(run_stream(res, pre + [step_sel]))
+    out = canon(run_stream(res, pre + [step_sel], rerun=(proc != 'printer')))      # the printer's output is collected in one log
     return {'base': base, 'all': alls, 'out': out, 'printed': log}
 
 
@@ -346,7 +346,7 @@ def run_load(case, res, sel):
                     Flow(Src([{'name': n, 'fields': FIELDS, 'rows': [dict(r, a=r['a'] + str(i)) for r in ROWS]}
                               for i, n in enumerate(names)]), DF.dump_to_path(d)).process()
             step = DF.load(os.path.join(d, 'datapackage.json'), resources=sel)
-        out = run_stream(pre, [step])
+        out = run_stream(pre, [step], rerun=(case['proc'] != 'load_tuple'))
     except Exception as e:
         return {'error': err_code(e), 'exc': '%s: %s' % (type(e).__name__, e)}
     if 'error' in out:
